@@ -178,6 +178,23 @@ def _sn_soft_eval(v):
         d.get('onehot') is False
 
 
+@predicate('mps-consumer-cost-detached-from-producer')
+def _mps_detached_consumer(v):
+    """MPS layers hand their cost functions the effective input features *detached* (TODO in the
+    source): the consumers' cost does not back-propagate into the producer's pruning coefficients.
+    A coefficient normally still gets a gradient from its own layer's cost; when that cost is
+    identically zero - the layer's own producer is pruned away completely, so it sees 0 effective
+    input features - its weight-precision coefficients raise the metric only through the consumers
+    and receive an exactly zero gradient."""
+    d = _d(v)
+    owners = d.get('param_owner') or []
+    return v['monitor'] == 'gradients' and \
+        str(d.get('sig', '')).endswith('zero-gradient-where-cost-rises') and \
+        str(d.get('sig', '')).startswith('mps:') and bool(owners) and \
+        all(o.get('effective_input_features') is not None and
+            abs(o['effective_input_features']) < 1e-6 for o in owners)
+
+
 @predicate('pit-import-fuses-bn-into-user-layer')
 def _pit_manual_bn(v):
     """autoconvert_layers=False: the searchable layers are the user's own objects; conversion
